@@ -10,3 +10,17 @@ s=open('/verif/seeded/README.md').read()
 s=s.split('\n## Table\n')[0].rstrip('\n')+'\n\n## Table\n\n'+t
 open('/verif/seeded/README.md','w').write(s)
 print(len(rows),'rows')
+
+# the same table (compact) inside DESIGN.md section 11.4
+rows2=[]
+n=0; c=0; st=0
+for d in sorted(glob.glob('/verif/seeded/C*-m*')):
+    m=json.load(open(d+'/meta.json'))
+    n+=1; c+= 1 if m['caught_by'] else 0; st += 1 if 'at first' in (m.get('note') or '') else 0
+    caught=', '.join(x.split(':',1)[0]+' `'+x.split(':',1)[1]+'`' for x in m['caught_by']) or '— (not counted, see note)'
+    rows2.append(f"| {os.path.basename(d)} | {m['property']} | {caught} | {(m.get('note') or '').replace('|','/')} |")
+block=f"{n} changes kept; {c} caught by the quick tiers; {st} of those were missed at first and led to a stronger check.\n\n| change | property | caught by (signature) | note |\n|---|---|---|---|\n"+"\n".join(rows2)+"\n"
+D=open('/verif/DESIGN.md').read()
+a=D.index('<!-- SEEDED-TABLE-BEGIN -->')+len('<!-- SEEDED-TABLE-BEGIN -->'); b=D.index('<!-- SEEDED-TABLE-END -->')
+open('/verif/DESIGN.md','w').write(D[:a]+'\n'+block+D[b:])
+print('DESIGN.md table updated:',n,c,st)
